@@ -245,3 +245,30 @@ MUTANTS += [
     M('dense-set-guard-le', 'C18', DENSE, '	if (row >= of_mod2dense_rows (m) || col >= of_mod2dense_cols (m))\n	{\n		OF_PRINT_ERROR(("mod2dense_set: row (%d) or column index (%d) out of bounds',
       '	if (row > of_mod2dense_rows (m) || col >= of_mod2dense_cols (m))\n	{\n		OF_PRINT_ERROR(("mod2dense_set: row (%d) or column index (%d) out of bounds', 'R-IDX-GUARD'),
 ]
+
+PCHKC = 'src/lib_stable/ldpc_staircase/of_ldpc_staircase_pchk.c'
+OFAPI = 'src/lib_common/of_openfec_api.c'
+MUTANTS += [
+    # ---- C05 / C12 / C15
+    M('pchk-srand-after-first-draw', ['C05', 'C12'], PCHKC, '	of_rfc5170_srand (seed);\n	pchkMatrix = of_mod2sparse_allocate (nb_rows, nb_cols);', '	pchkMatrix = of_mod2sparse_allocate (nb_rows, nb_cols);', 'R-SRAND-DOM'),
+    M('pchk-srand-conditional', ['C05', 'C12'], PCHKC, '	of_rfc5170_srand (seed);\n', '	if (seed != 1) of_rfc5170_srand (seed);\n', 'R-SRAND-DOM'),
+    M('pchk-reads-cb', 'C05', PCHKC, '	skipCols = nb_rows;\n	nbDataCols = nb_cols - skipCols;', '	skipCols = nb_rows;\n	nbDataCols = nb_cols - skipCols;\n	if (ofcb->codec_type & OF_DECODER) left_degree = left_degree;\n	else if (ofcb->nb_source_symbol_ready) seed++;', 'R-PURE-PCHK'),
+    M('pchk-callsite-n1-from-cb-default', 'C05', LDPCAPI, '						   ofcb->N1,\n						   ofcb->prng_seed,', '						   ofcb->N1,\n						   ofcb->prng_seed + ofcb->first_non_decoded,', 'R-PURE-PCHK'),
+    M('pchk-static-cache', 'C12', PCHKC, '	UINT32		skipCols = 0;		// avoid warning', '	static UINT32	last_seed;\n	UINT32		skipCols = 0;		// avoid warning\n	if (seed == last_seed) seed = last_seed; last_seed = seed;', 'R-GLOBALS', expect=2),
+    M('pchk-staircase-short', ['C05', 'C15'], PCHKC, '	for (i = 1; i < nb_rows; i++)\n	{\n		/* for all other rows */', '	for (i = 1; i < nb_rows - 1; i++)\n	{\n		/* for all other rows */', 'R-STAIRCASE'),
+    M('pchk-staircase-superdiag', ['C05', 'C15'], PCHKC, '		of_mod2sparse_insert (pchkMatrix, i, i - 1);', '		of_mod2sparse_insert (pchkMatrix, i - 1, i);', 'R-STAIRCASE'),
+    M('pchk-colfill-skips-first-col', ['C05', 'C15'], PCHKC, '	for (j = skipCols; j < nb_cols; j++)', '	for (j = skipCols + 1; j < nb_cols; j++)', 'R-COLFILL'),
+    M('pchk-colfill-no-find', ['C05', 'C15'], PCHKC, '				while (of_mod2sparse_find (pchkMatrix, i, j));\n				of_mod2sparse_insert (pchkMatrix, i, j);\n			}\n		}\n	}\n	if (uneven > 0',
+      '				while (0);\n				of_mod2sparse_insert (pchkMatrix, i, j);\n			}\n		}\n	}\n	if (uneven > 0', 'R-COLFILL'),
+    M('pchk-extra-not-counted', 'C15', PCHKC, '			of_mod2sparse_insert (pchkMatrix, i, j);\n			added ++;\n		}\n	}\n	if (added >= 1)', '			of_mod2sparse_insert (pchkMatrix, i, j);\n		}\n	}\n	if (added >= 1)', 'R-EXTRA-MARK'),
+    M('pchk-marker-threshold', 'C15', PCHKC, '	if (added >= 1)\n	{', '	if (added > 1)\n	{', 'R-EXTRA-MARK'),
+    M('flag-ignores-marker', 'C15', LDPCAPI, '		if (ofcb->extra_entries_added_in_pchk == true)\n		{', '		if (ofcb->extra_entries_added_in_pchk == true && (ofcb->codec_type & OF_DECODER))\n		{', 'R-FLAG-TRUTH'),
+    M('flag-odd', 'C15', LDPCAPI, '			*(bool*)value = ((ofcb->N1 & 0x1) == 0) ? true : false;', '			*(bool*)value = ((ofcb->N1 & 0x1) != 0) ? true : false;', 'R-FLAG-TRUTH'),
+    M('nullfeed-wrong-esi', 'C15', LDPCAPI, 'if (of_ldpc_staircase_decode_with_new_symbol (ofcb, null_symbol, ofcb->nb_total_symbols - 1)', 'if (of_ldpc_staircase_decode_with_new_symbol (ofcb, null_symbol, ofcb->nb_total_symbols - 2)', 'R-NULLFEED'),
+    M('nullfeed-unconditional', 'C15', LDPCAPI, '		if (is_null)\n		{', '		if (is_null || ofcb->N1 > 6)\n		{', 'R-NULLFEED'),
+    M('verbosity-controls-code', ['C05', 'C12'], PCHKC, '	if (uneven > 0 && of_verbosity >= 1)\n	{', '	if (uneven > 0 && of_verbosity >= 1)\n	{\n		of_rfc5170_rand (2);', 'R-VERBOSITY'),
+    M('mlrand-reseed', 'C12', MLDEC, '	permutation_array = (UINT32 *) of_malloc (ofcb->nb_repair_symbols * sizeof(UINT32));', '	srand (ofcb->nb_repair_symbols);\n	permutation_array = (UINT32 *) of_malloc (ofcb->nb_repair_symbols * sizeof(UINT32));', 'R-GLOBALS'),
+    M('global-seed-written-elsewhere', 'C12', OFAPI, '	of_verbosity = verbosity;', '	of_verbosity = verbosity;\n	{ extern UINT64 of_seed; of_seed = 1; }', 'R-'),
+    M('benign-pchk-loop-reindex', ['C05', 'C15'], PCHKC, '	of_mod2sparse_insert (pchkMatrix, 0, 0);	/* 1st row */\n	for (i = 1; i < nb_rows; i++)\n	{\n		/* for all other rows */\n		/* identity */\n		of_mod2sparse_insert (pchkMatrix, i, i);\n		/* staircase */\n		of_mod2sparse_insert (pchkMatrix, i, i - 1);\n	}',
+      '	of_mod2sparse_insert (pchkMatrix, 0, 0);	/* 1st row */\n	for (i = 0; i < nb_rows - 1; i++)\n	{\n		/* for all other rows */\n		/* identity */\n		of_mod2sparse_insert (pchkMatrix, i + 1, i + 1);\n		/* staircase */\n		of_mod2sparse_insert (pchkMatrix, i + 1, i);\n	}', expect=0),
+]
